@@ -669,7 +669,8 @@ def py_ctx_enc(c):
 
 
 # ------------------------------------------------------------------ code -> spec (recorded histories)
-SHAPES = {"a": int, "b": int, "count": int, "n2": int, "scale": int, "dim": int, "n": dict}
+SHAPES = {"a": int, "b": int, "count": int, "n2": int, "scale": int, "dim": int, "n": dict,
+          "n.b": int, "count.sel": int, "events.selected": int}        # flat keys written by Count(name with a dot)
 
 
 def well_shaped(c):
